@@ -72,6 +72,7 @@ type c12Sig struct {
 }
 
 type c12Scenario struct {
+	Poison   []int // messages with an undecodable signature entry
 	Now      int64
 	Reqs     []c12Req
 	Sig      []c12Sig
@@ -95,6 +96,13 @@ func (s *c12Scenario) JSON() []byte {
 			b.WriteString(",")
 		}
 		fmt.Fprintf(&b, `{"s":"%s","at":%d,"strict":%v}`, r.Server, r.At, r.Strict)
+	}
+	b.WriteString(`],"poison":[`)
+	for i, p := range s.Poison {
+		if i > 0 {
+			b.WriteString(",")
+		}
+		fmt.Fprintf(&b, "%d", p)
 	}
 	b.WriteString(`],"sig":[`)
 	for i, g := range s.Sig {
@@ -335,6 +343,14 @@ type c12SigSpec struct {
 // c12Message builds {"n":<n>,"origin":"o","signatures":{...}[,"unsigned":{...}]} and returns the
 // (server, kid, key hex) triples whose signature verifies.
 func c12Message(n int, sigs []c12SigSpec, unsigned bool) ([]byte, []c12SigSpec) {
+	msg, valid, _ := c12MessageP(n, sigs, unsigned)
+	return msg, valid
+}
+
+// c12MessageP also says whether the message is poisoned: some signature entry does not decode. The
+// triples returned verify when looked at on their own; whether an undecodable entry elsewhere in
+// "signatures" spoils them depends on the source tree (the model knows which, Gen/GenC12.v).
+func c12MessageP(n int, sigs []c12SigSpec, unsigned bool) ([]byte, []c12SigSpec, bool) {
 	content := fmt.Sprintf(`{"n":%d,"origin":"o"}`, n)
 	other := fmt.Sprintf(`{"n":%d,"origin":"o"}`, n+1)
 	byServer := map[string][]string{}
@@ -369,10 +385,7 @@ func c12Message(n int, sigs []c12SigSpec, unsigned bool) ([]byte, []c12SigSpec) 
 		msg += `,"unsigned":{"age":5}`
 	}
 	msg += "}"
-	if poisoned {
-		valid = nil
-	}
-	return []byte(msg), valid
+	return []byte(msg), valid, poisoned
 }
 
 var c12Servers = []string{"srvA", "srvB", "srvC"}
@@ -609,7 +622,11 @@ func (g *c12Gen) batch() {
 				}
 			}
 			var valid []c12SigSpec
-			msg, valid = c12Message(i, sigs, rng.Intn(3) == 0)
+			var poisoned bool
+			msg, valid, poisoned = c12MessageP(i, sigs, rng.Intn(3) == 0)
+			if poisoned {
+				sc.Poison = append(sc.Poison, i)
+			}
 			for _, v := range valid {
 				if v.Server == server {
 					sc.Sig = append(sc.Sig, c12Sig{i, v.Kid, c12Keys[v.KeyIdx].hex})
@@ -974,8 +991,9 @@ type c12Member struct {
 type c12DocSig struct{ Name, Kid, Key string }
 
 type c12Doc struct {
-	Raw  []byte
-	Sigs []c12DocSig // (name, key id, key) triples for which VerifyJSON succeeds on Raw
+	Raw      []byte
+	Sigs     []c12DocSig // (name, key id, key) triples for which VerifyJSON succeeds, each on its own
+	Poisoned bool        // "signatures" holds an entry (of some other entity) that does not decode
 }
 
 func c12BuildDoc(d c12DocSpec) (*c12Doc, error) {
@@ -1094,18 +1112,21 @@ func c12BuildDoc(d c12DocSpec) (*c12Doc, error) {
 	}
 	if d.Poison {
 		sparts = append(sparts, `"zzz":5`)
-		table = nil
 	}
 	raw := "{" + text(members(d.VU)) + `,"signatures":{` + strings.Join(sparts, ",") + "}}"
 	if len(members(d.VU)) == 0 {
 		raw = `{"signatures":{` + strings.Join(sparts, ",") + "}}"
 	}
-	return &c12Doc{Raw: []byte(raw), Sigs: table}, nil
+	return &c12Doc{Raw: []byte(raw), Sigs: table, Poisoned: d.Poison}, nil
 }
 
-func c12DocsJSON(docs []*c12Doc) (fields, sig string) {
+// the poisoned document indices and the signature table of a list of documents
+func c12DocsJSON(docs []*c12Doc) (poison, sig string) {
 	var f, s []string
 	for i, d := range docs {
+		if d.Poisoned {
+			f = append(f, strconv.Itoa(i))
+		}
 		for _, g := range d.Sigs {
 			s = append(s, fmt.Sprintf(`[%d,"%s","%s","%s"]`, i, g.Name, g.Kid, g.Key))
 		}
@@ -1446,7 +1467,7 @@ func (g *c12Gen) checkKeys() {
 			return
 		}
 		fields, sig := c12DocsJSON([]*c12Doc{doc})
-		cfg := fmt.Sprintf(`{"now":%d,"server":"%s","docs":%s,"sig":%s}`, now, server, fields, sig)
+		cfg := fmt.Sprintf(`{"now":%d,"server":"%s","poison":%s,"sig":%s}`, now, server, fields, sig)
 		c.Run("C12.check_keys", [][]byte{B(cfg), doc.Raw}, "C12.check_keys", "C12.prop.check_keys", desc)
 		c.Count("check_keys")
 	}
@@ -1491,7 +1512,7 @@ func (g *c12Gen) publicKey() {
 	for _, kid := range []string{"ed25519:a", "ed25519:b", "ed25519:old", "ed25519:late", "ed25519:none", ""} {
 		for _, base := range []uint64{T, T - 500, T + 500, 0, 1 << 63, 1<<63 + 5, 1<<64 - 1} {
 			for _, dd := range []int64{-1, 0, 1} {
-				cfg := fmt.Sprintf(`{"kid":"%s","at":%d,"docs":%s}`, kid, base+uint64(dd), fields)
+				cfg := fmt.Sprintf(`{"kid":"%s","at":%d,"poison":%s}`, kid, base+uint64(dd), fields)
 				g.c.Run("C12.public_key", [][]byte{B(cfg), doc.Raw}, "C12.public_key", "", "ServerKeys.PublicKey")
 				g.c.Count("public_key")
 			}
@@ -1524,11 +1545,13 @@ func (g *c12Gen) fetchDoc(server string, class int) c12DocSpec {
 		d.VU = 1 << 63
 	case 9: // non-ed25519 key next to a good one (passed through unchecked)
 		d.Verify = append(d.Verify, c12VerifyKeySpec{Kid: "rsa:1", Key: []byte("rsakey"), SignIdx: -1})
+	case 10: // an old key published with expired_ts 0: mapped as neither expired nor valid
+		d.Old = []c12OldKeySpec{{"ed25519:old", c12Pub(2), 0}}
 	}
 	return d
 }
 
-const c12DocClasses = 10
+const c12DocClasses = 11
 
 func (g *c12Gen) directFetch() {
 	c := g.c
@@ -1601,7 +1624,7 @@ func (g *c12Gen) directFetch() {
 			}
 		}
 		fields, sig := c12DocsJSON(docs)
-		cfg := fmt.Sprintf(`{"now":0,"local":["srvL"],"localkey":"%s","asked":[%s],"get":{%s},"lookup":{%s},"docs":%s,"sig":%s}`,
+		cfg := fmt.Sprintf(`{"now":0,"local":["srvL"],"localkey":"%s","asked":[%s],"get":{%s},"lookup":{%s},"poison":%s,"sig":%s}`,
 			c12Keys[4].hex, strings.Join(asked, ","), strings.Join(get, ","), strings.Join(lookup, ","), fields, sig)
 		args := [][]byte{B(cfg)}
 		for _, d := range docs {
@@ -1683,7 +1706,7 @@ func (g *c12Gen) perspectiveFetch() {
 			}
 		}
 		fields, sig := c12DocsJSON(docs)
-		cfg := fmt.Sprintf(`{"pname":"notary","pkeys":[%s],"asked":[%s],"lookup":%s,"docs":%s,"sig":%s}`, pkeys, strings.Join(asked, ","), lookup, fields, sig)
+		cfg := fmt.Sprintf(`{"pname":"notary","pkeys":[%s],"asked":[%s],"lookup":%s,"poison":%s,"sig":%s}`, pkeys, strings.Join(asked, ","), lookup, fields, sig)
 		args := [][]byte{B(cfg)}
 		for _, d := range docs {
 			args = append(args, d.Raw)
